@@ -64,10 +64,16 @@ def template_text(draw, cols, min_parts=1):
     return u" ".join(parts).strip() or u"x"
 
 
+# WIDE tables (a dozen columns; c1 is a prefix of c10, c11, ...), TALL ones (a dozen rows) and outlines with a dozen
+# Examples sections: what holds for three holds for thirteen
+COLS_WIDE = COLS + [u"c%d" % i for i in range(1, 13)]
+
+
 @st.composite
 def outline_case(draw):
-    ncols = draw(st.integers(1, 3))
-    cols = draw(st.permutations(COLS))[:ncols]
+    big = draw(st.sampled_from([None] * 9 + ["wide", "wide", "tall", "sections"]))
+    ncols = draw(st.integers(1, 3)) if big != "wide" else draw(st.integers(11, 14))
+    cols = draw(st.permutations(COLS if big != "wide" else COLS_WIDE))[:ncols]
     tagcol = draw(st.sampled_from(cols)) if draw(st.booleans()) else None
     outline = {"k": "o", "name": draw(template_text(cols)), "tags": [], "steps": [], "ex": []}
     # tags: plain, parametrised (one column reserved for tag-safe values)
@@ -86,10 +92,10 @@ def outline_case(draw):
             step["table"] = [[draw(template_text(cols)) for _ in range(w)]
                              for _ in range(draw(st.integers(1, 3)))]
         outline["steps"].append(step)
-    for _ in range(draw(st.integers(0, 3))):
+    for k in range(draw(st.integers(0, 3)) if big != "sections" else draw(st.integers(10, 12))):
         order = list(draw(st.permutations(cols)))
         rows = []
-        for _ in range(draw(st.integers(0, 4))):
+        for _ in range(draw(st.integers(0, 4)) if not (big == "tall" and k == 0) else draw(st.integers(10, 13))):
             row = []
             for c in order:
                 row.append(draw(st.sampled_from(TAG_VALUES if c == tagcol else VALUES)))
@@ -104,7 +110,9 @@ def outline_case(draw):
                                      "broken_build"]))
         edits.append({"op": kind, "ex": draw(st.integers(0, 2)), "col": draw(st.sampled_from(COLS + [u"new"])),
                       "values": [draw(st.sampled_from(VALUES)) for _ in range(4)]})
-    return {"outline": outline, "schema": draw(st.sampled_from(SCHEMAS)), "edits": edits,
+    if big == "tall" and not outline["ex"]:
+        big = None
+    return {"outline": outline, "schema": draw(st.sampled_from(SCHEMAS)), "edits": edits, "big": big,
             "in_rule": draw(st.booleans()), "noise": draw(st.lists(st.integers(0, 200), max_size=6))}
 
 
@@ -215,7 +223,7 @@ def check(case):
     # -- table API edits
     edits = case.get("edits") or []
     applied = 0
-    tag_columns = set(c for c in COLS + [u"new"] if any((u"<%s>" % c) in t for t in outline["tags"]))
+    tag_columns = set(c for c in COLS_WIDE + [u"new"] if any((u"<%s>" % c) in t for t in outline["tags"]))
 
     def safe(col, value):
         # values that end up inside tags stay within the tag-safe alphabet (see ASSUMPTIONS)
@@ -328,7 +336,9 @@ def check(case):
     positions += any(u"<" in t for t in outline["tags"])
     orders = set(tuple(ex["cols"]) for ex in outline["ex"])
     res.nontrivial = (nrows >= 2 and positions >= 2) or len(orders) >= 2
-    res.label("rows:%d" % min(nrows, 3), "blocks:%d" % len(outline["ex"]))
+    res.label("rows:%d" % min(nrows, 3), "blocks:%d" % min(len(outline["ex"]), 4))
+    if case.get("big"):
+        res.label("big:" + case["big"])
     if len(orders) >= 2:
         res.label("column-orders-differ")
     if any(u"<" in t for t in outline["tags"]):
@@ -344,15 +354,16 @@ def check(case):
 
 def explore(rec):
     quick = rec.tier == "quick"
-    rec.hyp("outlines", outline_case(), 40000 if quick else 400000)
+    rec.hyp("outlines", outline_case(), 24000 if quick else 400000)
 
 
 def required_labels(tier):
     return ["rows:3", "blocks:0", "blocks:2", "column-orders-differ", "parametrised-tag", "placeholder-in-docstring",
             "placeholder-in-table", "schema", "table-edits", "table-edits:remove_columns-partly-done",
-            "table-edits:failed-build-then-rebuilt"]
+            "table-edits:failed-build-then-rebuilt", "big:wide", "big:tall", "big:sections"]
 
 
 KNOWN_PREDICATES = {}
+RULE = RULE + " " + ('Three cases in thirteen are big in one dimension: 11-14 columns (c1 ... c12: names that are prefixes of each other), 10-13 rows in one table, 10-12 Examples sections.')
 RULE = RULE + " " + ('Table edits include remove_columns() with an unknown name among the names (KeyError caught, partial effect modelled) and a build that fails on an unusable name schema, is caught, and is repeated with the schema restored.')
 RULE = RULE + " " + ('Examples blocks carry tags with characters outside the alphabet of rendered tags (region=eu/west, owner=ops@example.com): they reach the rows as written.')
